@@ -1317,7 +1317,14 @@ class DirectiveParser(Parser):
                            <if>|<elif>|<else>|<endif>]
         """
         try:
-            self.match_value(Operator, "#")
+            try:
+                self.match_value(Operator, "#")
+            except ParseError:
+                # A line starting with "##" is lexed as the paste operator;
+                # a preprocessor takes it for a non-directive, which is
+                # harmless in a group that is skipped.
+                self.match_value(Operator, "##")
+                return UnrecognizedDirectiveNode(self.tokens)
 
             # Check for a match against known directives
             candidates = [
